@@ -53,6 +53,276 @@ def _resolve_alias(f, expr):
 
 
 # ------------------------------------------------------------------------------
+# the direction of a state change: which way a test on new_state points, and
+# what a (possibly signed) amount evaluates to in each direction
+#
+def _once_bound_values(fnode, params=()):
+    """local name -> value for names bound exactly once by `name = value`"""
+    cnt, val = {}, {}
+    for n in walk(fnode):
+        if isinstance(n, ast.Name) and isinstance(n.ctx, (ast.Store, ast.Del)):
+            cnt[n.id] = cnt.get(n.id, 0) + 1
+        elif isinstance(n, ast.ExceptHandler) and n.name:
+            cnt[n.name] = cnt.get(n.name, 0) + 1
+        if isinstance(n, ast.Assign) and len(n.targets) == 1 and \
+                isinstance(n.targets[0], ast.Name):
+            val[n.targets[0].id] = n.value
+    return {k: v for k, v in val.items() if cnt.get(k) == 1 and
+            k not in params}
+
+
+def _cmp_direction(prog, f, a, state, free, busy, once=None, depth=3):
+    """direction implied when test expression `a` is true: True (new_state is
+    BUSY), False (FREE), None (not a recognised test of the state).  The two
+    valued reading of the original is kept: `!= BUSY` means FREE."""
+    if isinstance(a, ast.Name) and once and a.id in once and depth:
+        return _cmp_direction(prog, f, once[a.id], state, free, busy, once,
+                              depth - 1)
+    if isinstance(a, ast.UnaryOp) and isinstance(a.op, ast.Not):
+        r = _cmp_direction(prog, f, a.operand, state, free, busy, once, depth)
+        return None if r is None else not r
+    if not (isinstance(a, ast.Compare) and len(a.ops) == 1):
+        return None
+    l, r = a.left, a.comparators[0]
+    if isinstance(l, ast.Name) and l.id == state:
+        other = r
+    elif isinstance(r, ast.Name) and r.id == state:
+        other = l
+    else:
+        return None
+    is_eq = isinstance(a.ops[0], (ast.Eq, ast.Is))
+    is_ne = isinstance(a.ops[0], (ast.NotEq, ast.IsNot))
+    v = prog.fold(f.module, other)
+    if not (is_eq or is_ne) or v is UNKNOWN:
+        return None
+    if v == busy:
+        return is_eq
+    if v == free:
+        return not is_eq
+    return None
+
+
+def _state_edges(prog, f, g, state, free, busy):
+    """{(test node id, label): direction on that edge}"""
+    once = _once_bound_values(f.node, f.params)
+    out = {}
+    for n in g.nodes:
+        if n.kind != 'test':
+            continue
+        d = _cmp_direction(prog, f, n.ast, state, free, busy, once)
+        if d is not None:
+            out[(n.id, 'T')] = d
+            out[(n.id, 'F')] = not d
+    return out
+
+
+def _operator_fn(f, e):
+    """'Add' / 'Sub' if expression e names operator.add / operator.sub (or
+    the in-place variants), through the imports of the module"""
+    d = dotted(e)
+    if not d:
+        return None
+    imports = dict(f.module.imports)
+    imports.update(f.module.local_imports(f.node))
+    head, _, rest = d.partition('.')
+    imp = imports.get(head)
+    if not imp or imp[0] != 'ext':
+        return None
+    full = imp[1] + ('.' + rest if rest else '')
+    return {'operator.add': 'Add', 'operator.iadd': 'Add',
+            'operator.sub': 'Sub', 'operator.isub': 'Sub',
+            '_operator.add': 'Add', '_operator.sub': 'Sub'}.get(full)
+
+
+class _Signed:
+    """evaluation of update amounts per direction for one function"""
+
+    def __init__(self, prog, f, g, state, free, busy):
+        self.prog, self.f, self.g = prog, f, g
+        self.state, self.free, self.busy = state, free, busy
+        self.edges = _state_edges(prog, f, g, state, free, busy)
+        # edges that contradict a direction
+        self.contra = {True: [k for k, v in self.edges.items() if v is False],
+                       False: [k for k, v in self.edges.items() if v is True]}
+        self.reach = {pol: g.reachable(g.entry.id, skip_edges=self.contra[pol])
+                      for pol in (True, False)}
+        self.smap = I.stmt_node_map(g)
+        self.bind = {}                  # name -> [(cfg node, value | None)]
+        for n in g.nodes:
+            if n.ast is None:
+                continue
+            if n.kind == 'stmt' and isinstance(n.ast, (
+                    ast.Assign, ast.AnnAssign, ast.AugAssign)):
+                tg = n.ast.targets if isinstance(n.ast, ast.Assign) \
+                    else [n.ast.target]
+                for t in tg:
+                    if isinstance(t, ast.Name):
+                        self.bind.setdefault(t.id, []).append(
+                            (n, n.ast.value if not isinstance(
+                                n.ast, ast.AugAssign) else None))
+                    else:
+                        for nm in stores_in_target(t):
+                            self.bind.setdefault(nm, []).append((n, None))
+            elif n.kind == 'for':
+                for nm in stores_in_target(n.ast.target):
+                    self.bind.setdefault(nm, []).append((n, None))
+            elif n.kind == 'with':
+                for i in n.ast.items:
+                    if i.optional_vars is not None:
+                        for nm in stores_in_target(i.optional_vars):
+                            self.bind.setdefault(nm, []).append((n, None))
+
+    def reaching(self, name, nid, pol):
+        """bindings of `name` that reach node nid in direction pol"""
+        g = self.g
+        defs = self.bind.get(name, [])
+        ids = {n.id for n, v in defs}
+        out = []
+        for n, v in defs:
+            if n.id not in self.reach[pol]:
+                continue
+            contra = set(self.contra[pol])
+            starts = [e.dst for e in g.succ[n.id] if e.label != 'exc' and
+                      (e.src, e.label) not in contra]
+            r = g.reachable(starts, skip_nodes=ids - {nid},
+                            skip_edges=self.contra[pol])
+            if nid in r:
+                out.append((n, v))
+        return out
+
+    def _depends_on_state(self, e):
+        for x in walk(e):
+            if isinstance(x, ast.Name):
+                if x.id == self.state:
+                    return True
+                for n, v in self.bind.get(x.id, []):
+                    if any(k in self.edges for k in guards(self.g, n.id)):
+                        return True
+        return False
+
+    def _opaque(self, e):
+        if self._depends_on_state(e):
+            return None
+        return (1, unparse(e))
+
+    def _pick(self, e, pol):
+        """branch of a conditional expression / literal table selected by the
+        direction, or None"""
+        if isinstance(e, ast.IfExp):
+            d = _cmp_direction(self.prog, self.f, e.test, self.state,
+                               self.free, self.busy,
+                               _once_bound_values(self.f.node, self.f.params))
+            if d is None:
+                return None
+            return e.body if d == pol else e.orelse
+        if isinstance(e, ast.Subscript) and isinstance(e.value, ast.Dict) \
+                and isinstance(e.slice, ast.Name) and e.slice.id == self.state:
+            want = self.busy if pol else self.free
+            for k, v in zip(e.value.keys, e.value.values):
+                if k is not None and \
+                        self.prog.fold(self.f.module, k) == want:
+                    return v
+        return None
+
+    def value(self, e, nid, pol, depth=0):
+        """(sign, magnitude text) of expression e evaluated at node nid in
+        direction pol; None if it depends on the direction in a way that is
+        not understood"""
+        if depth > 8:
+            return None
+        if isinstance(e, ast.Constant) and isinstance(e.value, (int, float)) \
+                and not isinstance(e.value, bool):
+            return (-1 if e.value < 0 else 1, repr(abs(e.value)))
+        if isinstance(e, ast.UnaryOp) and isinstance(e.op, (ast.USub,
+                                                           ast.UAdd)):
+            r = self.value(e.operand, nid, pol, depth + 1)
+            if r is None:
+                return None
+            return (-r[0], r[1]) if isinstance(e.op, ast.USub) else r
+        if isinstance(e, ast.BinOp) and isinstance(e.op, ast.Mult):
+            a = self.value(e.left, nid, pol, depth + 1)
+            b = self.value(e.right, nid, pol, depth + 1)
+            if a is None or b is None:
+                return None
+            if a[1] in ('1', '1.0'):
+                mag = b[1]
+            elif b[1] in ('1', '1.0'):
+                mag = a[1]
+            else:
+                mag = '%s * %s' % (a[1], b[1])
+            return (a[0] * b[0], mag)
+        br = self._pick(e, pol)
+        if br is not None:
+            return self.value(br, nid, pol, depth + 1)
+        if isinstance(e, ast.Name) and e.id != self.state:
+            rd = self.reaching(e.id, nid, pol)
+            vals = set()
+            for n, v in rd:
+                if v is None:
+                    return self._opaque(e)      # loop variable, tuple, +=
+                r = self.value(v, n.id, pol, depth + 1)
+                if r is None:
+                    return None
+                vals.add(r)
+            if len(vals) == 1:
+                return vals.pop()
+            if vals:
+                return None
+            return (1, e.id) if e.id not in self.bind else None
+        return self._opaque(e)
+
+    def _callable(self, e, nid, pol, depth=0):
+        """'Add' / 'Sub' for a callee expression in direction pol"""
+        if depth > 4:
+            return None
+        br = self._pick(e, pol)
+        if br is not None:
+            return self._callable(br, nid, pol, depth + 1)
+        if isinstance(e, ast.Name) and e.id in self.bind:
+            ops = set()
+            for n, v in self.reaching(e.id, nid, pol):
+                ops.add(self._callable(v, n.id, pol, depth + 1)
+                        if v is not None else None)
+            return ops.pop() if len(ops) == 1 else None
+        return _operator_fn(self.f, e)
+
+    def is_functional_update(self, n):
+        """`T = op(T, x)` where op is (in some direction) operator.add/sub"""
+        c = n.value
+        if not (isinstance(c, ast.Call) and len(c.args) == 2 and
+                not c.keywords and
+                unparse(c.args[0]) == unparse(n.targets[0])):
+            return False
+        nid = self.smap[id(n)].id
+        return any(self._callable(c.func, nid, pol) for pol in (True, False))
+
+    def update(self, n, pol):
+        """('Add' | 'Sub', magnitude) of update statement n in direction pol"""
+        nid = self.smap[id(n)].id
+        # a guard that mentions the state but is not understood
+        for k in guards(self.g, nid):
+            a = self.g.nodes[k[0]].ast
+            if k not in self.edges and any(
+                    isinstance(x, ast.Name) and x.id == self.state
+                    for x in walk(a)):
+                return None
+        if isinstance(n, ast.AugAssign):
+            op = type(n.op).__name__
+            amount = n.value
+        else:
+            op = self._callable(n.value.func, nid, pol)
+            amount = n.value.args[1]
+            if op is None:
+                return None
+        r = self.value(amount, nid, pol)
+        if r is None:
+            return None
+        if r[0] < 0:
+            op = 'Sub' if op == 'Add' else 'Add'
+        return (op, r[1])
+
+
+# ------------------------------------------------------------------------------
 # R03.1  symmetric update
 #
 def r03_1(prog, rep, rid='R03.1'):
@@ -74,41 +344,45 @@ def r03_1(prog, rep, rid='R03.1'):
         if len(params) < 2:
             raise AnalysisError('UNRECOGNISED-IDIOM %s: parameters' % f.where)
         state = params[1]
+        # writes in an `except` body undo a failed application (R03.7): they
+        # are not one of the two directions
+        inh = _in_handlers(f.node)[0]
+        sg = _Signed(prog, f, g, state, free, busy)
         augs = {}
         for n in walk(f.node):
+            if id(n) in inh or id(n) not in smap:
+                continue
             if isinstance(n, ast.AugAssign) and \
                     isinstance(n.op, (ast.Add, ast.Sub)):
-                cn = smap[id(n)]
-                pol = None          # True: under new_state == BUSY
-                for tid, lab in guards(g, cn.id):
-                    a = g.nodes[tid].ast
-                    if isinstance(a, ast.Compare) and len(a.ops) == 1 and \
-                            state in {x.id for x in walk(a)
-                                      if isinstance(x, ast.Name)}:
-                        other = a.comparators[0] if unparse(a.left) == state \
-                            else a.left
-                        v = prog.fold(f.module, other)
-                        is_eq = isinstance(a.ops[0], (ast.Eq, ast.Is))
-                        is_ne = isinstance(a.ops[0], (ast.NotEq, ast.IsNot))
-                        if not (is_eq or is_ne) or v is UNKNOWN:
-                            continue
-                        truth = (lab == 'T') == is_eq     # state == v holds
-                        if v == busy:
-                            pol = truth
-                        elif v == free:
-                            pol = not truth
-                augs.setdefault(_norm_target(n.target), []).append(
-                    (n, pol, type(n.op), unparse(n.value)))
+                augs.setdefault(_norm_target(n.target), []).append(n)
+            elif isinstance(n, ast.Assign) and len(n.targets) == 1 and \
+                    isinstance(n.targets[0], (ast.Subscript, ast.Attribute)) \
+                    and sg.is_functional_update(n):
+                augs.setdefault(_norm_target(n.targets[0]), []).append(n)
         if len(augs) < 2:
             raise AnalysisError('R03.1: %s has fewer than two debited '
                                 'quantities' % f.where)
         for tgt, lst in sorted(augs.items()):
-            deb = [x for x in lst if x[1] is True]
-            cre = [x for x in lst if x[1] is False]
-            unk = [x for x in lst if x[1] is None]
-            okay = len(deb) == 1 and len(cre) == 1 and not unk and \
-                deb[0][2] is ast.Sub and cre[0][2] is ast.Add and \
-                deb[0][3] == cre[0][3]
+            # what happens to the target in each direction: the updates that
+            # can run when new_state is BUSY (resp. FREE), each reduced to
+            # (effective operator, magnitude) - `+= sign * x` with sign -1
+            # under BUSY is a debit by x
+            deb, cre = [], []
+            for n in lst:
+                for pol, out in ((True, deb), (False, cre)):
+                    if smap[id(n)].id not in sg.reach[pol]:
+                        continue
+                    r = sg.update(n, pol)
+                    if r is None:
+                        raise AnalysisError(
+                            'UNRECOGNISED-IDIOM %s: the amount of `%s` depends '
+                            'on %s in a way that is not understood'
+                            % (f.where, short(n, 60), state))
+                    out.append(r)
+            both = [x for x in deb if x in cre]
+            okay = len(deb) == 1 and len(cre) == 1 and \
+                deb[0][0] == 'Sub' and cre[0][0] == 'Add' and \
+                deb[0][1] == cre[0][1]
             rep.check(okay, rid, f,
                       '%s: %s is debited (-=) under BUSY and credited (+=) '
                       'under FREE by the same operand' % (f.qual, tgt),
@@ -116,18 +390,17 @@ def r03_1(prog, rep, rid='R03.1'):
                       message='%s: the updates of %s are not symmetric '
                       '(BUSY: %s, FREE: %s, unconditional: %s): a release '
                       'does not restore what the grant took'
-                      % (f.qual, tgt,
-                         [(x[2].__name__, x[3]) for x in deb],
-                         [(x[2].__name__, x[3]) for x in cre],
-                         [(x[2].__name__, x[3]) for x in unk]),
-                      loc=f.loc(lst[0][0]),
+                      % (f.qual, tgt, [x for x in deb if x not in both],
+                         [x for x in cre if x not in both], both),
+                      loc=f.loc(lst[0]),
                       history='grant and release of one task with lfs/mem: '
                       'the node ends with a different amount than it started '
                       'with')
         # cores / gpus: value written is the state parameter, unconditionally
         n_cg = 0
         for kind, target, stmt in I.stores(f.node):
-            if kind != 'assign' or not isinstance(target, ast.Subscript):
+            if kind != 'assign' or not isinstance(target, ast.Subscript) \
+                    or id(stmt) in inh:
                 continue
             t = _norm_target(target)
             if not (t.endswith('[*]') and ('cores' in t or 'gpus' in t or
@@ -666,6 +939,457 @@ def r03_6(prog, rep, rid='R03.6'):
 
 
 # ------------------------------------------------------------------------------
+# R03.7  one slot is applied atomically by the occupancy writer
+#
+def _node_roots(n):
+    """expressions / statements evaluated by one cfg node"""
+    if n.ast is None or n.kind in ('while', 'dispatch', 'handler', 'join',
+                                   'entry', 'exit', 'raise'):
+        return []
+    if isinstance(n.ast, (ast.FunctionDef, ast.AsyncFunctionDef,
+                          ast.ClassDef)):
+        return []
+    if n.kind == 'for':
+        return [n.ast.iter]
+    if n.kind == 'with':
+        return [i.context_expr for i in n.ast.items]
+    return [n.ast]
+
+
+def _in_handlers(fnode):
+    """(ids of the ast nodes lexically inside an `except` body, the same plus
+    those inside a `finally` body).  What is raised in a handler propagates
+    (or converts) a failure that started in the try body: it is not the origin
+    of one."""
+    inh, infin = set(), set()
+    for n in walk(fnode):
+        if isinstance(n, ast.ExceptHandler):
+            for s in n.body:
+                for m in walk(s):
+                    inh.add(id(m))
+        elif isinstance(n, ast.Try):
+            for s in n.finalbody:
+                for m in walk(s):
+                    infin.add(id(m))
+    return inh, inh | infin
+
+
+def _state_polarity(prog, f, g, nid, state, free, busy):
+    """True: node runs only for new_state == BUSY, False: only for FREE,
+    None: in both directions (or not decidable)"""
+    edges = _state_edges(prog, f, g, state, free, busy)
+    pol = None
+    for k in guards(g, nid):
+        if k in edges:
+            pol = edges[k]
+    return pol
+
+
+class _Atomicity:
+    """For one concrete scheduler class: which cfg nodes of a method write
+    occupancy (a store through a path rooted in self.nodes, or a call of a
+    resolved callee that does), which are *explicit* failure points (`raise
+    X`, `assert`, a call of a resolved callee from which such a failure
+    escapes), and which failure points can leave the method after a write
+    without passing another write (a roll-back) on the way out."""
+
+    DEPTH = 4
+
+    def __init__(self, prog, K, base):
+        self.prog = prog
+        self.K = K
+        self.methods = I.class_methods(prog, K, stop_at=base)
+        self.al = I.Aliases(prog, K, self.methods, 'self.nodes')
+        self.memo = {}
+
+    def _rooted(self, f, target):
+        if self.methods.get(f.name) is not f:
+            return False        # module level function: no view of self.nodes
+        return self.al.is_rooted_expr(f.name, target)
+
+    def escapes(self, g, n, ctx, skip=()):
+        """the failure raised at node n can leave the function without passing
+        a node of `skip`.  Only the propagation is followed: dispatch nodes,
+        `finally` copies and the bodies of the handlers that catch it (they may
+        re-raise); the normal flow after a handler that swallowed the failure
+        is somebody else's path."""
+        if isinstance(n.ast, ast.Raise):
+            todo = [e.dst for e in g.succ[n.id]]
+        else:
+            todo = [e.dst for e in g.succ[n.id] if e.label == 'exc']
+            if not todo:
+                return True     # no enclosing try: nothing here catches it
+        skip = set(skip) - {n.id}
+        seen = set()
+        while todo:
+            x = todo.pop()
+            if x in seen or x in skip:
+                continue
+            m = g.nodes[x]
+            if not (m.kind in ('dispatch', 'handler', 'join', 'raise') or
+                    (m.ast is not None and id(m.ast) in ctx)):
+                continue
+            seen.add(x)
+            if x == g.raise_.id:
+                return True
+            todo += [e.dst for e in g.succ[x]]
+        return False
+
+    def summary(self, f, depth=0, in_loop=False):
+        """in_loop: the function is called from inside a loop of the occupancy
+        writer, i.e. all of it belongs to the handling of one slot"""
+        key = (id(f.node), in_loop)
+        if key in self.memo:
+            return self.memo[key]
+        s = {'f': f, 'W': {}, 'P': {}, 'raises': False, 'writes': False,
+             'partial': [], 'across': []}
+        self.memo[key] = s              # recursion guard: neutral summary
+        g = cfg_of(f)
+        inh, ctx = _in_handlers(f.node)
+        for n in g.nodes:
+            for root in _node_roots(n):
+                for kind, target, stmt in I.stores(root):
+                    if self._rooted(f, target):
+                        s['W'].setdefault(n.id, short(stmt, 60))
+                if isinstance(root, (ast.Raise, ast.Assert)):
+                    if id(root) not in inh and not (
+                            isinstance(root, ast.Raise) and root.exc is None):
+                        s['P'][n.id] = (root, None)
+                for c in calls_in(root):
+                    if depth >= self.DEPTH:
+                        continue
+                    callee = self.prog.resolve_call(f, c, self.K)
+                    if callee is None or callee is f:
+                        continue
+                    cs = self.summary(callee, depth + 1,
+                                      in_loop or bool(n.loops))
+                    if cs['writes']:
+                        s['W'].setdefault(n.id, short(c, 60))
+                    if cs['raises'] and id(c) not in inh:
+                        s['P'].setdefault(n.id, (c, cs))
+                    for w, p, via, _ in cs['partial']:
+                        s['partial'].append((w, p, [short(c, 50)] + via,
+                                             None))
+        s['writes'] = bool(s['W'])
+        s['raises'] = any(self.escapes(g, g.nodes[p], ctx) for p in s['P'])
+        # a loop around a write is taken as writing (a roll-back loop over
+        # what was marked): passing it on the way out counts as restoring
+        restore = set(s['W']) | {h for wid in s['W']
+                                 for h in g.nodes[wid].loops}
+        for pid_, (past, cs) in sorted(s['P'].items()):
+            p = g.nodes[pid_]
+            if not self.escapes(g, p, ctx, skip=restore):
+                continue                # caught here, or rolled back on the way
+            hit = across = None
+            for wid, wtxt in sorted(s['W'].items()):
+                if wid == pid_:
+                    continue            # the callee's own summary decides
+                w = g.nodes[wid]
+                # leaving the write through an 'exc' edge: it did not happen
+                noexc = [e for e in g.succ[wid] if e.label == 'exc']
+                if pid_ not in g.reachable(wid, skip_edges=noexc):
+                    continue
+                # the loop over the slots is the outermost loop around the
+                # write: a failure that needs another iteration of it belongs
+                # to a later slot
+                again = []
+                if w.loops and not in_loop:
+                    head = w.loops[0]
+                    again = [e for x in g.loop_body[head] | {head}
+                             for e in g.succ[x] if e.enter == head]
+                if pid_ in g.reachable(wid, skip_edges=again + noexc):
+                    hit = wtxt
+                    break
+                if across is None:
+                    across = wtxt
+            if hit is not None:
+                s['partial'].append((hit, past, [], pid_))
+            elif across is not None:
+                s['across'].append((across, past))
+        return s
+
+
+def r03_7(prog, rep, rid='R03.7'):
+    rep.rule(rid, '_change_slot_states applies one slot all-or-nothing: no '
+             'explicit failure (raise X / assert / call of a method that '
+             'raises) can leave it after an occupancy write of the same slot '
+             'unless occupancy is written back on the way out: all validation '
+             'of a slot dominates its writes (a caller cannot undo a partial '
+             'application, it does not know how far it got)', minimum=2)
+    free, busy, down = consts(prog)
+    base, classes = sched_classes(prog)
+    seen = set()
+    for K in classes:
+        f = prog.find_method(K, '_change_slot_states')
+        if f is None:
+            raise AnalysisError('%s._change_slot_states missing' % K.name)
+        if id(f) in seen:
+            continue
+        seen.add(id(f))
+        rep.saw(f)
+        an = _Atomicity(prog, K, base)
+        s = an.summary(f)
+        if not s['writes']:
+            raise AnalysisError('R03.7: %s: no write through self.nodes found'
+                                % f.where)
+        g = cfg_of(f)
+        params = [p for p in f.params if p != 'self']
+        state = params[1] if len(params) > 1 else None
+        n_ob = 0
+        bad = {id(p) for w, p, via, nid in s['partial']}
+        for pid_, (past, cs) in sorted(s['P'].items()):
+            if id(past) in bad:
+                continue
+            n_ob += 1
+            rep.ok(rid, f, '%s: `%s` cannot fail after a write of the same '
+                   'slot' % (f.qual, short(past, 50)), f.loc(past))
+        if not n_ob and not bad:
+            rep.ok(rid, f, '%s: no explicit failure point' % f.qual, f.loc())
+        for w, past, via, nid in s['partial']:
+            pol = None
+            if nid is not None and state:
+                pol = _state_polarity(prog, f, g, nid, state, free, busy)
+            side = {True: 'grant (new_state == BUSY)',
+                    False: 'release (new_state == FREE)',
+                    None: 'grant and release'}[pol]
+            if pol is False:
+                hist = ('a finished task is released, the check trips after '
+                        'part of the slot was freed: unschedule_task raises, '
+                        'the rest of this task and every later task of the '
+                        'same bulk keep their cores BUSY')
+            else:
+                hist = ('a task arrives with slots in its description (cores '
+                        '1,2 + more lfs/mem than the node has left, or '
+                        'whatever trips the check): cores 1,2 are marked BUSY, '
+                        'then the grant raises; _schedule_incoming fails the '
+                        'task without counting it and nobody ever sends an '
+                        "unschedule for it (via _try_allocation task['slots'] "
+                        'is never attached): the cores stay BUSY although no '
+                        'task holds them')
+            rep.bad(rid, f, past,
+                    '%s: the explicit failure `%s`%s can leave the function '
+                    'after `%s` was already applied for the same slot (%s '
+                    'side), and nothing writes the occupancy back on the way '
+                    'out: the slot (and the task) is booked partially, no '
+                    'caller knows what to give back'
+                    % (f.qual, short(past, 60),
+                       (' (reached through %s)' % ' -> '.join(via))
+                       if via else '', w, side),
+                    f.loc(past) if not via else f.loc(), history=hist)
+        for w, past in s['across']:
+            rep.info(rid, f, '%s: `%s` precedes the writes of its own slot '
+                     'but can fire after earlier slots of the same list were '
+                     'applied (`%s`); not armed: atomicity across slots is '
+                     'not decided' % (f.qual, short(past, 50), w), f.loc(past))
+
+
+# ------------------------------------------------------------------------------
+# R03.8  who takes a running task out of the registry releases it
+#
+def _takes_ownership(prog, c07, m):
+    """for a method m that performs the locked test-and-remove itself and
+    tells its caller the result: (truth of the value returned when the uid
+    was registered and has been removed, registry) - else None"""
+    g = cfg_of(m)
+    arbs = c07._arbitration(prog, m, g)
+    if len(arbs) != 1:
+        return None
+    w, locks, tid, leave, cont, did = arbs[0]
+    stay = 'F' if leave == 'T' else 'T'
+    rets = {n.id for n in g.nodes if n.kind == 'stmt' and
+            isinstance(n.ast, ast.Return)}
+
+    def truths(label):
+        start = [e.dst for e in g.succ[tid] if e.label == label]
+        r = g.reachable(start, skip_nodes=rets) | \
+            {x for x in start if x in rets}
+        out = set()
+        for x in rets:
+            if x in r or any(e.src in r for e in g.pred[x]):
+                v = g.nodes[x].ast.value
+                if v is None:
+                    out.add(False)
+                elif isinstance(v, ast.Constant):
+                    out.add(bool(v.value))
+                else:
+                    out.add(None)
+        if g.exit.id in r:
+            out.add(False)              # falls off the end: returns None
+        return out
+    won, lost = truths(stay), truths(leave)
+    if len(won) == 1 and len(lost) == 1 and None not in won | lost and \
+            won != lost:
+        return (won.pop(), cont)
+    return None
+
+
+def _ownership_points(prog, c07, cls, f, g):
+    """[(test node, [first nodes of the paths on which this function owns the
+    task], registry)]: the "uid is registered" edge of a locked
+    test-and-remove written in the function itself, or of a test on the
+    result of a helper method that performs it"""
+    out = []
+    for w, locks, tid, leave, cont, did in c07._arbitration(prog, f, g):
+        stay = 'F' if leave == 'T' else 'T'
+        out.append((g.nodes[tid],
+                    [e.dst for e in g.succ[tid] if e.label == stay], cont))
+    once = _once_bound_values(f.node, f.params)
+    for n in g.nodes:
+        if n.kind != 'test':
+            continue
+        e = n.ast
+        if isinstance(e, ast.Name) and e.id in once:
+            e = once[e.id]
+        if not isinstance(e, ast.Call):
+            continue
+        m = prog.resolve_call(f, e, cls)
+        if m is None or m is f:
+            continue
+        r = _takes_ownership(prog, c07, m)
+        if r is None:
+            continue
+        lab = 'T' if r[0] else 'F'
+        out.append((n, [x.dst for x in g.succ[n.id] if x.label == lab], r[1]))
+    return out
+
+
+def r03_8(prog, rep, rid='R03.8'):
+    rep.rule(rid, 'the contender (cancel_task / watcher) that removed a '
+             'running task from the shared registry under the lock announces '
+             'it for unscheduling on every path that follows: directly, or '
+             'by collecting it into the list that is published after the loop '
+             '- the other contender skips unregistered uids, so nobody else '
+             'will', minimum=3)
+    from . import c07
+    popen = prog.cls(*c07.POPEN)
+    hist = ('the process of a running task exits while its cancellation '
+            '(cancel request or timeout) is under way: the contender that '
+            'won the test-and-remove on the registry leaves without the '
+            'unschedule publication, the other one skips the uid because it '
+            'is no longer registered: the cores / gpus stay BUSY and '
+            '_active_cnt stays one too high for the rest of the pilot')
+    for mname in ('cancel_task', '_check_running'):
+        f = prog.find_method(popen, mname)
+        if f is None:
+            raise AnalysisError('Popen.%s missing' % mname)
+        rep.saw(f)
+        g = cfg_of(f)
+        smap = I.stmt_node_map(g)
+        points = _ownership_points(prog, c07, popen, f, g)
+        if not points:
+            # R07.2 reports the missing arbitration itself
+            raise AnalysisError('UNRECOGNISED-IDIOM %s: no locked '
+                                'test-and-remove on the task registry'
+                                % f.where)
+        quiet = c07._noise_exc_edges(g)
+        pubs = [c for c in calls_in(f.node)
+                if c07._is_unsched_pub(prog, f, c) and len(c.args) > 1]
+        for tn, owned, cont in points:
+            loops = [h for h in tn.loops]
+            if not loops:
+                # one call = one task: the parameter is the task
+                things = set(p for p in f.params if p != 'self')
+                rel = {smap[id(c)].id for c in pubs
+                       if c07._thing_name(c.args[1]) in things}
+                r = g.reachable(owned, skip_nodes=rel, skip_edges=quiet)
+                okay = bool(rel) and g.exit.id not in r
+                last = [x for x in r if g.nodes[x].kind == 'stmt' and
+                        isinstance(g.nodes[x].ast, ast.Return)]
+                rep.check(okay, rid, f, 'Popen.%s: after the removal from %s '
+                          'every path to the end publishes the unschedule '
+                          'message' % (mname, cont),
+                          construct='%s:owned-then-released' % mname,
+                          message='Popen.%s: after it removed the uid from %s '
+                          '(ownership taken) a path reaches the end of the '
+                          'function without publishing the task on the '
+                          'unschedule channel%s: the watcher skips uids that '
+                          'are not registered, so the resources of the task '
+                          'are never released' % (
+                              mname, cont, ' (`return` in line %s)' % ', '.join(
+                                  str(g.nodes[x].lineno) for x in sorted(last))
+                              if last else ''),
+                          loc=f.loc(g.nodes[sorted(last)[0]].ast) if last
+                          else f.loc(), history=hist)
+                continue
+            # per item of a loop: direct publication of the item, or
+            # collection into the list that is published after the loop
+            H = loops[-1]
+            body = g.loop_body[H]
+            tv = set(stores_in_target(g.nodes[H].ast.target)) \
+                if g.nodes[H].kind == 'for' else set()
+            lists = {}
+            for c in pubs:
+                a = c.args[1]
+                if isinstance(a, ast.Name) and smap[id(c)].id not in body:
+                    lists.setdefault(a.id, []).append(smap[id(c)].id)
+            rel = {smap[id(c)].id for c in pubs
+                   if smap[id(c)].id in body and
+                   c07._thing_name(c.args[1]) in tv}
+            collected = set()
+            for n in g.nodes:
+                if n.id not in body or n.kind != 'stmt':
+                    continue
+                for c in calls_in(n.ast):
+                    if isinstance(c.func, ast.Attribute) and \
+                            c.func.attr in ('append', 'extend', 'add') and \
+                            isinstance(c.func.value, ast.Name) and \
+                            c.func.value.id in lists and c.args and \
+                            c07._thing_name(c.args[0]) in tv:
+                        rel.add(n.id)
+                        collected.add(c.func.value.id)
+                if isinstance(n.ast, ast.AugAssign) and \
+                        isinstance(n.ast.op, ast.Add) and \
+                        isinstance(n.ast.target, ast.Name) and \
+                        n.ast.target.id in lists and \
+                        c07._thing_name(n.ast.value) in tv:
+                    rel.add(n.id)
+                    collected.add(n.ast.target.id)
+            r = g.reachable(owned, skip_nodes=rel | {H}, skip_edges=quiet)
+            ends = [x for x in r if x not in body or
+                    any(e.dst == H for e in g.succ[x])]
+            okay = bool(rel) and not ends
+            at = sorted(ends, key=lambda x: g.nodes[x].lineno)
+            rep.check(okay, rid, f, 'Popen.%s: after the removal from %s every '
+                      'path through the iteration releases the task (published '
+                      'or collected for the bulk publication)' % (mname, cont),
+                      construct='%s:owned-then-collected' % mname,
+                      message='Popen.%s: after it removed the uid from %s '
+                      '(ownership taken) the iteration can end without the '
+                      'task being published on the unschedule channel or '
+                      'collected for the bulk publication%s: cancel_task '
+                      'skips uids that are not registered, so the resources '
+                      'of the task are never released' % (
+                          mname, cont, (' (line %d)' % g.nodes[at[0]].lineno)
+                          if at else ''),
+                      loc=f.loc(g.nodes[at[0]].ast) if at and
+                      g.nodes[at[0]].ast is not None else f.loc(),
+                      history=hist)
+            # the bulk publication after the loop, skipped at most when the
+            # list is empty
+            if not collected:
+                rep.ok(rid, f, 'Popen.%s: released per task inside the loop'
+                       % mname, f.loc())
+                continue
+            for lst in sorted(collected):
+                after = [e.dst for x in body | {H} for e in g.succ[x]
+                         if e.dst not in body and e.dst != H and
+                         e.label != 'exc']
+                empties = [(n.id, 'F') for n in g.nodes if n.kind == 'test'
+                           and isinstance(n.ast, ast.Name) and n.ast.id == lst]
+                r = g.reachable(after, skip_nodes=set(lists[lst]),
+                                skip_edges=empties + quiet)
+                rep.check(g.exit.id not in r, rid, f, 'Popen.%s: the collected '
+                          'list %s is published on the unschedule channel on '
+                          'every path after the loop' % (mname, lst),
+                          construct='%s:bulk-publication' % mname,
+                          message='Popen.%s: tasks collected in %s after their '
+                          'removal from %s are not published on the unschedule '
+                          'channel on every path after the loop (conditional '
+                          'on something else than the list being empty)'
+                          % (mname, lst, cont), loc=f.loc(), history=hist)
+
+
+# ------------------------------------------------------------------------------
 #
 def run(prog, rep, tier):
     rep.decided = ('debit/credit symmetry of _change_slot_states (both '
@@ -678,11 +1402,22 @@ def run(prog, rep, tier):
         're-evaluated: a second writer is what makes a failed multi-node '
         'search leak); roll-back of a partial NodeList.find_slots; one '
         'unschedule publication per finish path (R07.1, re-evaluated from the '
-        'C07 module when present).')
+        'C07 module when present); one slot is applied all-or-nothing by '
+        '_change_slot_states: no explicit failure point (raise / assert / '
+        'resolved raising callee, helpers followed) after a write of the same '
+        'slot without a roll-back on the way out (R03.7); signed / '
+        'operator-valued spellings of the lfs/mem update are evaluated per '
+        'direction (R03.1); the contender that won the registry arbitration '
+        'in the Popen executor releases on every path that follows, also '
+        'when the arbitration sits in a helper (R03.8).')
     rep.undecided = ('the NUMA-domain path (NumaNode.find_slot allocates on '
         'per-domain Node objects while release_slots credits the top-level '
         'node): needs alias reasoning over objects built at run time; real '
-        'interleavings between executor threads.')
+        'interleavings between executor threads; atomicity across the slots '
+        'of one list (a failure at slot k after slots < k were applied - the '
+        'node lookup of the unchanged tree already is one, see the R03.7 '
+        'information lines) and implicit failures (KeyError / IndexError of '
+        'a malformed slot) inside the occupancy writer.')
     rep.assumptions = [
         'scope: AgentSchedulingComponent, Continuous, ContinuousJsrun, '
         'resource_config.Node/NodeList',
@@ -697,6 +1432,7 @@ def run(prog, rep, tier):
     rep.attempt(r01_1, prog, rep, rid='R03.4b')
     rep.attempt(r03_5, prog, rep)
     rep.attempt(r03_6, prog, rep)
+    rep.attempt(r03_7, prog, rep)
     try:
         from . import c07
         if hasattr(c07, 'r07_1'):
@@ -706,6 +1442,8 @@ def run(prog, rep, tier):
             # releases racing with cancellation: both contenders release only
             # after the locked test-and-remove
             rep.attempt(c07.r07_2, prog, rep, rid='R07.2')
+            # the winner of that arbitration releases on every path
+            rep.attempt(r03_8, prog, rep)
     except ImportError:
         pass
 
@@ -715,6 +1453,7 @@ _B = 'agent/scheduler/base.py'
 _C = 'agent/scheduler/continuous.py'
 _J = 'agent/scheduler/continuous_jsrun.py'
 _N = 'resource_config.py'
+_P = 'agent/executing/popen.py'
 
 MUTATIONS = [
     dict(name='R03.1 lfs credited with mem', rules=('R03.1',), edits=[
@@ -771,6 +1510,59 @@ MUTATIONS = [
         (_N, "            for slot in slots:\n                node = self.nodes[slot.node_index]\n                node.deallocate_slot(slot)\n            self.__last_failed_rr__ = rr", "            self.__last_failed_rr__ = rr")]),
     dict(name='R03.6 release_slots skips the last slot', rules=('R03.6',), edits=[
         (_N, "        for slot in slots:\n\n            node = self.nodes[slot.node_index]\n            node.deallocate_slot(slot)\n\n        if self.__last_failed_rr__:", "        for slot in slots[:-1]:\n\n            node = self.nodes[slot.node_index]\n            node.deallocate_slot(slot)\n\n        if self.__last_failed_rr__:")]),
+    dict(name='R03.7 lfs/mem validated after the cores are marked (seed C03-d)', rules=('R03.7',), edits=[
+        (_B, "                if new_state == rpc.BUSY:\n                    node['lfs'] -= slot['lfs']\n", "                if new_state == rpc.BUSY:\n                    if slot['lfs'] > node['lfs']:\n                        raise RuntimeError('insufficient lfs on %s'\n                                          % node['name'])\n                    node['lfs'] -= slot['lfs']\n"),
+        (_B, "                if new_state == rpc.BUSY:\n                    node['mem'] -= slot['mem']\n", "                if new_state == rpc.BUSY:\n                    if slot['mem'] > node['mem']:\n                        raise RuntimeError('insufficient mem on %s'\n                                          % node['name'])\n                    node['mem'] -= slot['mem']\n")]),
+    dict(name='R03.7 sanity assert after the mem debit', rules=('R03.7',), edits=[
+        (_J, "                    node['mem'] -= slot['mem']\n", "                    node['mem'] -= slot['mem']\n                    assert node['mem'] >= 0, 'mem overbooked'\n")]),
+    dict(name='R03.7 double booking refused inside the core loop', rules=('R03.7',), edits=[
+        (_B, "            for core in slot['cores']:\n                node['cores'][core['index']] = new_state\n", "            for core in slot['cores']:\n                if new_state == rpc.BUSY and \\\n                        node['cores'][core['index']] == rpc.BUSY:\n                    raise RuntimeError('core in use')\n                node['cores'][core['index']] = new_state\n")]),
+    dict(name='R03.7 capacity check in a helper called after the gpus are marked', rules=('R03.7',), edits=[
+        (_B, "    def slot_status(self, msg=None, uid=None):\n", "    def _check_capacity(self, node, slot, new_state):\n        if new_state == rpc.BUSY:\n            if slot['lfs'] > node['lfs'] or slot['mem'] > node['mem']:\n                raise ValueError('node %s overbooked' % node['name'])\n\n    def slot_status(self, msg=None, uid=None):\n"),
+        (_B, "                node['gpus'][gpu['index']] = new_state\n", "                node['gpus'][gpu['index']] = new_state\n\n            self._check_capacity(node, slot, new_state)\n")]),
+    dict(name='R03.7 release refuses a negative lfs credit after freeing the cores', rules=('R03.7',), edits=[
+        (_J, "                else:\n                    node['lfs'] += slot['lfs']\n", "                else:\n                    if slot['lfs'] < 0:\n                        raise ValueError('negative lfs')\n                    node['lfs'] += slot['lfs']\n")]),
+    dict(name='R03.7 writer helper raises between its writes', rules=('R03.7',), edits=[
+        (_B, "    def slot_status(self, msg=None, uid=None):\n", "    def _apply_slot(self, node, slot, new_state):\n        for core in slot['cores']:\n            node['cores'][core['index']] = new_state\n        if new_state == rpc.BUSY and slot['lfs'] > node['lfs']:\n            raise RuntimeError('insufficient lfs')\n        for gpu in slot['gpus']:\n            node['gpus'][gpu['index']] = new_state\n\n        if slot['lfs']:\n            if new_state == rpc.BUSY:\n                node['lfs'] -= slot['lfs']\n            else:\n                node['lfs'] += slot['lfs']\n\n        if slot['mem']:\n            if new_state == rpc.BUSY:\n                node['mem'] -= slot['mem']\n            else:\n                node['mem'] += slot['mem']\n\n    def slot_status(self, msg=None, uid=None):\n"),
+        (_B, "            # iterate over cores/gpus in the slot, and update state\n            for core in slot['cores']:\n                node['cores'][core['index']] = new_state\n\n            for gpu in slot['gpus']:\n                node['gpus'][gpu['index']] = new_state\n\n            if slot['lfs']:\n                if new_state == rpc.BUSY:\n                    node['lfs'] -= slot['lfs']\n                else:\n                    node['lfs'] += slot['lfs']\n\n            if slot['mem']:\n                if new_state == rpc.BUSY:\n                    node['mem'] -= slot['mem']\n                else:\n                    node['mem'] += slot['mem']\n", "            self._apply_slot(node, slot, new_state)\n")]),
+    dict(name='R03.7 gpu check after the cores, handler only logs and re-raises', rules=('R03.7',), edits=[
+        (_J, "            for gpu_map in slot['gpus']:\n                for gpu in gpu_map:\n                    node['gpus'][gpu] = new_state\n", "            try:\n                for gpu_map in slot['gpus']:\n                    for gpu in gpu_map:\n                        if gpu >= len(node['gpus']):\n                            raise ValueError('no such gpu')\n                        node['gpus'][gpu] = new_state\n            except ValueError:\n                self._log.error('invalid slot %s', slot)\n                raise\n")]),
+    dict(name='R03.1 sign trick: same sign in both directions', rules=('R03.1',), edits=[
+        (_B, "        # for node_name, node_index, cores, gpus in slots['ranks']:\n        for slot in slots:\n", "        if new_state == rpc.BUSY: sign = -1\n        else                    : sign = -1\n\n        # for node_name, node_index, cores, gpus in slots['ranks']:\n        for slot in slots:\n"),
+        (_B, "            if slot['lfs']:\n                if new_state == rpc.BUSY:\n                    node['lfs'] -= slot['lfs']\n                else:\n                    node['lfs'] += slot['lfs']\n", "            if slot['lfs']: node['lfs'] += sign * slot['lfs']\n"),
+        (_B, "            if slot['mem']:\n                if new_state == rpc.BUSY:\n                    node['mem'] -= slot['mem']\n                else:\n                    node['mem'] += slot['mem']\n", "            if slot['mem']: node['mem'] += sign * slot['mem']\n")]),
+    dict(name='R03.1 sign trick: sign inverted (+1 under BUSY)', rules=('R03.1',), edits=[
+        (_J, "        # for node_name, node_index, cores, gpus in slots['ranks']:\n        for slot in slots:\n", "        sign = 1 if new_state == rpc.BUSY else -1\n\n        # for node_name, node_index, cores, gpus in slots['ranks']:\n        for slot in slots:\n"),
+        (_J, "            if slot['lfs']:\n                if new_state == rpc.BUSY:\n                    node['lfs'] -= slot['lfs']\n                else:\n                    node['lfs'] += slot['lfs']\n", "            if slot['lfs']: node['lfs'] += sign * slot['lfs']\n"),
+        (_J, "            if slot['mem']:\n                if new_state == rpc.BUSY:\n                    node['mem'] -= slot['mem']\n                else:\n                    node['mem'] += slot['mem']\n", "            if slot['mem']: node['mem'] += sign * slot['mem']\n")]),
+    dict(name='R03.1 sign trick: applied to lfs only, mem always added', rules=('R03.1',), edits=[
+        (_B, "        # for node_name, node_index, cores, gpus in slots['ranks']:\n        for slot in slots:\n", "        if new_state == rpc.BUSY: sign = -1\n        else                    : sign = +1\n\n        # for node_name, node_index, cores, gpus in slots['ranks']:\n        for slot in slots:\n"),
+        (_B, "            if slot['lfs']:\n                if new_state == rpc.BUSY:\n                    node['lfs'] -= slot['lfs']\n                else:\n                    node['lfs'] += slot['lfs']\n", "            if slot['lfs']: node['lfs'] += sign * slot['lfs']\n"),
+        (_B, "            if slot['mem']:\n                if new_state == rpc.BUSY:\n                    node['mem'] -= slot['mem']\n                else:\n                    node['mem'] += slot['mem']\n", "            if slot['mem']: node['mem'] += slot['mem']\n")]),
+    dict(name='R03.1 sign trick: default +1 never overridden for BUSY', rules=('R03.1',), edits=[
+        (_J, "        # for node_name, node_index, cores, gpus in slots['ranks']:\n        for slot in slots:\n", "        sign = 1\n        if new_state == rpc.FREE:\n            sign = 1\n\n        # for node_name, node_index, cores, gpus in slots['ranks']:\n        for slot in slots:\n"),
+        (_J, "            if slot['lfs']:\n                if new_state == rpc.BUSY:\n                    node['lfs'] -= slot['lfs']\n                else:\n                    node['lfs'] += slot['lfs']\n", "            if slot['lfs']: node['lfs'] += sign * slot['lfs']\n"),
+        (_J, "            if slot['mem']:\n                if new_state == rpc.BUSY:\n                    node['mem'] -= slot['mem']\n                else:\n                    node['mem'] += slot['mem']\n", "            if slot['mem']: node['mem'] += sign * slot['mem']\n")]),
+    dict(name='R03.1 operator form: add in both directions', rules=('R03.1',), edits=[
+        (_B, "        # for node_name, node_index, cores, gpus in slots['ranks']:\n        for slot in slots:\n", "        import operator\n        op = operator.add if new_state == rpc.BUSY else operator.add\n\n        # for node_name, node_index, cores, gpus in slots['ranks']:\n        for slot in slots:\n"),
+        (_B, "            if slot['lfs']:\n                if new_state == rpc.BUSY:\n                    node['lfs'] -= slot['lfs']\n                else:\n                    node['lfs'] += slot['lfs']\n", "            if slot['lfs']: node['lfs'] = op(node['lfs'], slot['lfs'])\n"),
+        (_B, "            if slot['mem']:\n                if new_state == rpc.BUSY:\n                    node['mem'] -= slot['mem']\n                else:\n                    node['mem'] += slot['mem']\n", "            if slot['mem']: node['mem'] = op(node['mem'], slot['mem'])\n")]),
+    dict(name='R03.1 signed amount: debit scaled by 2', rules=('R03.1',), edits=[
+        (_B, "        # for node_name, node_index, cores, gpus in slots['ranks']:\n        for slot in slots:\n", "        if new_state == rpc.BUSY: sign = -2\n        else                    : sign = +1\n\n        # for node_name, node_index, cores, gpus in slots['ranks']:\n        for slot in slots:\n"),
+        (_B, "            if slot['lfs']:\n                if new_state == rpc.BUSY:\n                    node['lfs'] -= slot['lfs']\n                else:\n                    node['lfs'] += slot['lfs']\n", "            if slot['lfs']: node['lfs'] += sign * slot['lfs']\n"),
+        (_B, "            if slot['mem']:\n                if new_state == rpc.BUSY:\n                    node['mem'] -= slot['mem']\n                else:\n                    node['mem'] += slot['mem']\n", "            if slot['mem']: node['mem'] += sign * slot['mem']\n")]),
+    dict(name='R03.8 cancel re-polls after the removal and leaves the task to the watcher (seed C03-f)', rules=('R03.8',), edits=[
+        (_P, "        self._prof.prof('task_run_cancel_start', uid=tid)\n", "        self._prof.prof('task_run_cancel_start', uid=tid)\n\n        if proc.poll() is not None:\n            self._log.debug('task %s completed before cancel', tid)\n            self._prof.prof('task_run_cancel_stop', uid=tid)\n            return\n")]),
+    dict(name='R03.8 cancel publishes only when the process was reaped', rules=('R03.8',), edits=[
+        (_P, "        self._prof.prof('unschedule_start', uid=tid)\n        self.publish(rpc.AGENT_UNSCHEDULE_PUBSUB, task)\n", "        self._prof.prof('unschedule_start', uid=tid)\n        if proc.returncode is not None:\n            self.publish(rpc.AGENT_UNSCHEDULE_PUBSUB, task)\n")]),
+    dict(name='R03.8 watcher drops a removed task that already has an outcome', rules=('R03.8',), edits=[
+        (_P, '                tasks_to_advance.append(task)\n', "                if task.get('target_state'):\n                    # somebody finalized it\n                    continue\n\n                tasks_to_advance.append(task)\n")]),
+    dict(name='R03.8 bulk publication only for more than one task', rules=('R03.8',), edits=[
+        (_P, '        self.publish(rpc.AGENT_UNSCHEDULE_PUBSUB, tasks_to_advance)\n', '        if len(tasks_to_advance) > 1:\n            self.publish(rpc.AGENT_UNSCHEDULE_PUBSUB, tasks_to_advance)\n')]),
+    dict(name='R03.8 arbitration in a helper, cancel leaves after winning it', rules=('R03.8',), edits=[
+        (_P, '    def cancel_task(self, task):\n', '    def _disown_task(self, tid):\n        with self._check_lock:\n            if tid not in self._tasks:\n                return False\n            self._tasks.pop(tid, None)\n            return True\n\n    def cancel_task(self, task):\n'),
+        (_P, '        with self._check_lock:\n            if tid not in self._tasks:\n                return\n            try:\n                del self._tasks[tid]\n            except KeyError:\n                pass\n\n        # task is still running -- cancel it\n', '        won = self._disown_task(tid)\n        if not won:\n            return\n\n        # task is still running -- cancel it\n'),
+        (_P, "        self._prof.prof('task_run_cancel_start', uid=tid)\n", "        self._prof.prof('task_run_cancel_start', uid=tid)\n\n        if proc.poll() is not None:\n            return\n")]),
 ]
 
 SILENT = [
@@ -793,4 +1585,56 @@ SILENT = [
         (_N, "            for slot in slots:\n                node = self.nodes[slot.node_index]\n                node.deallocate_slot(slot)\n            self.__last_failed_rr__ = rr", "            for s in slots:\n                self.nodes[s.node_index].deallocate_slot(s)\n            self.__last_failed_rr__ = rr")]),
     dict(name='placement result tested into a local first', edits=[
         (_B, "                    if self._try_allocation(task):\n                        # task got scheduled", "                    placed = self._try_allocation(task)\n                    if placed:\n                        # task got scheduled")]),
+    dict(name='node lookup as for-else: raise before the writes of the slot', edits=[
+        (_B, "            node = None\n            node_found = False\n            for node in self.nodes:\n                if node['index'] == slot['node_index']:\n                    node_found = True\n                    break\n\n            if not node_found:\n                raise RuntimeError('inconsistent node information')\n", "            for node in self.nodes:\n                if node['index'] == slot['node_index']:\n                    break\n            else:\n                raise RuntimeError('inconsistent node information')\n")]),
+    dict(name='all slots validated in a first pass, applied in a second', edits=[
+        (_J, "            node = None\n            node_found = False\n            for node in self.nodes:\n                if node['index'] == slot['node_index']:\n                    node_found = True\n                    break\n\n            if not node_found:\n                raise RuntimeError('inconsistent node information')\n", "            node = None\n            for node in self.nodes:\n                if node['index'] == slot['node_index']:\n                    break\n"),
+        (_J, "        # for node_name, node_index, cores, gpus in slots['ranks']:\n        for slot in slots:\n", "        for slot in slots:\n            if not [n for n in self.nodes\n                    if n['index'] == slot['node_index']]:\n                raise RuntimeError('inconsistent node information')\n\n        for slot in slots:\n")]),
+    dict(name='lfs/mem booked before cores/gpus, mem guard as early continue', edits=[
+        (_J, "            # iterate over cores/gpus in the slot, and update state\n            for core_map in slot['cores']:\n                for core in core_map:\n                    node['cores'][core] = new_state\n\n            for gpu_map in slot['gpus']:\n                for gpu in gpu_map:\n                    node['gpus'][gpu] = new_state\n\n", ""),
+        (_J, "            if slot['mem']:\n                if new_state == rpc.BUSY:\n                    node['mem'] -= slot['mem']\n                else:\n                    node['mem'] += slot['mem']\n", "            for gpu_map in slot['gpus']:\n                for gpu in gpu_map:\n                    node['gpus'][gpu] = new_state\n\n            for core_map in slot['cores']:\n                for core in core_map:\n                    node['cores'][core] = new_state\n\n            if not slot['mem']:\n                continue\n            if new_state == rpc.BUSY:\n                node['mem'] -= slot['mem']\n            else:\n                node['mem'] += slot['mem']\n")]),
+    dict(name='renamed locals, gpus marked before cores', edits=[
+        (_B, "            node = None\n            node_found = False\n            for node in self.nodes:\n                if node['index'] == slot['node_index']:\n                    node_found = True\n                    break\n\n            if not node_found:\n                raise RuntimeError('inconsistent node information')\n", "            n = None\n            known = False\n            for n in self.nodes:\n                if n['index'] == slot['node_index']:\n                    known = True\n                    break\n\n            if known is False:\n                raise RuntimeError('inconsistent node information')\n            node = n\n"),
+        (_B, "            for core in slot['cores']:\n                node['cores'][core['index']] = new_state\n\n            for gpu in slot['gpus']:\n                node['gpus'][gpu['index']] = new_state\n", "            for g in slot['gpus']:\n                node['gpus'][g['index']] = new_state\n\n            for c in slot['cores']:\n                node['cores'][c['index']] = new_state\n")]),
+    dict(name='writes of one slot extracted into a helper called after the lookup', edits=[
+        (_B, "    def slot_status(self, msg=None, uid=None):\n", "    def _apply_slot(self, node, slot, new_state):\n        for core in slot['cores']:\n            node['cores'][core['index']] = new_state\n\n        for gpu in slot['gpus']:\n            node['gpus'][gpu['index']] = new_state\n\n        if slot['lfs']:\n            if new_state == rpc.BUSY:\n                node['lfs'] -= slot['lfs']\n            else:\n                node['lfs'] += slot['lfs']\n\n        if slot['mem']:\n            if new_state == rpc.BUSY:\n                node['mem'] -= slot['mem']\n            else:\n                node['mem'] += slot['mem']\n\n    def slot_status(self, msg=None, uid=None):\n"),
+        (_B, "            # iterate over cores/gpus in the slot, and update state\n            for core in slot['cores']:\n                node['cores'][core['index']] = new_state\n\n            for gpu in slot['gpus']:\n                node['gpus'][gpu['index']] = new_state\n\n            if slot['lfs']:\n                if new_state == rpc.BUSY:\n                    node['lfs'] -= slot['lfs']\n                else:\n                    node['lfs'] += slot['lfs']\n\n            if slot['mem']:\n                if new_state == rpc.BUSY:\n                    node['mem'] -= slot['mem']\n                else:\n                    node['mem'] += slot['mem']\n", "            self._apply_slot(node, slot, new_state)\n")]),
+    dict(name='slots taken from a work list in a while loop', edits=[
+        (_B, '        for slot in slots:\n\n            # Find the entry in the slots list\n', "        todo = list(slots)\n        while todo:\n            slot = todo.pop(0)\n")]),
+    dict(name='signed update: sign -1 under BUSY else +1, += sign * amount', edits=[
+        (_B, "        # for node_name, node_index, cores, gpus in slots['ranks']:\n        for slot in slots:\n", "        if new_state == rpc.BUSY: sign = -1\n        else                    : sign = +1\n\n        # for node_name, node_index, cores, gpus in slots['ranks']:\n        for slot in slots:\n"),
+        (_B, "            if slot['lfs']:\n                if new_state == rpc.BUSY:\n                    node['lfs'] -= slot['lfs']\n                else:\n                    node['lfs'] += slot['lfs']\n", "            if slot['lfs']: node['lfs'] += sign * slot['lfs']\n"),
+        (_B, "            if slot['mem']:\n                if new_state == rpc.BUSY:\n                    node['mem'] -= slot['mem']\n                else:\n                    node['mem'] += slot['mem']\n", "            if slot['mem']: node['mem'] += sign * slot['mem']\n")]),
+    dict(name='signed update: sign defaults to +1, overridden under BUSY', edits=[
+        (_J, "        # for node_name, node_index, cores, gpus in slots['ranks']:\n        for slot in slots:\n", "        sign = 1\n        if new_state == rpc.BUSY:\n            sign = -1\n\n        # for node_name, node_index, cores, gpus in slots['ranks']:\n        for slot in slots:\n"),
+        (_J, "            if slot['lfs']:\n                if new_state == rpc.BUSY:\n                    node['lfs'] -= slot['lfs']\n                else:\n                    node['lfs'] += slot['lfs']\n", "            if slot['lfs']: node['lfs'] += sign * slot['lfs']\n"),
+        (_J, "            if slot['mem']:\n                if new_state == rpc.BUSY:\n                    node['mem'] -= slot['mem']\n                else:\n                    node['mem'] += slot['mem']\n", "            if slot['mem']: node['mem'] += sign * slot['mem']\n")]),
+    dict(name='signed update: -= with sign +1 under BUSY, amount first', edits=[
+        (_B, "        # for node_name, node_index, cores, gpus in slots['ranks']:\n        for slot in slots:\n", "        taken = 1 if new_state == rpc.BUSY else -1\n\n        # for node_name, node_index, cores, gpus in slots['ranks']:\n        for slot in slots:\n"),
+        (_B, "            if slot['lfs']:\n                if new_state == rpc.BUSY:\n                    node['lfs'] -= slot['lfs']\n                else:\n                    node['lfs'] += slot['lfs']\n", "            if slot['lfs']: node['lfs'] -= slot['lfs'] * taken\n"),
+        (_B, "            if slot['mem']:\n                if new_state == rpc.BUSY:\n                    node['mem'] -= slot['mem']\n                else:\n                    node['mem'] += slot['mem']\n", "            if slot['mem']: node['mem'] -= slot['mem'] * taken\n")]),
+    dict(name='signed amount: delta = -x if BUSY else x; += delta', edits=[
+        (_J, "            if slot['lfs']:\n                if new_state == rpc.BUSY:\n                    node['lfs'] -= slot['lfs']\n                else:\n                    node['lfs'] += slot['lfs']\n", "            if slot['lfs']:\n                delta = -slot['lfs'] if new_state == rpc.BUSY else slot['lfs']\n                node['lfs'] += delta\n"),
+        (_J, "            if slot['mem']:\n                if new_state == rpc.BUSY:\n                    node['mem'] -= slot['mem']\n                else:\n                    node['mem'] += slot['mem']\n", "            if slot['mem']:\n                d_mem = slot['mem']\n                if new_state == rpc.BUSY:\n                    d_mem = -d_mem\n                node['mem'] += d_mem\n")]),
+    dict(name='operator form: op = operator.sub if BUSY else operator.add', edits=[
+        (_B, "        # for node_name, node_index, cores, gpus in slots['ranks']:\n        for slot in slots:\n", "        import operator\n        op = operator.sub if new_state == rpc.BUSY else operator.add\n\n        # for node_name, node_index, cores, gpus in slots['ranks']:\n        for slot in slots:\n"),
+        (_B, "            if slot['lfs']:\n                if new_state == rpc.BUSY:\n                    node['lfs'] -= slot['lfs']\n                else:\n                    node['lfs'] += slot['lfs']\n", "            if slot['lfs']: node['lfs'] = op(node['lfs'], slot['lfs'])\n"),
+        (_B, "            if slot['mem']:\n                if new_state == rpc.BUSY:\n                    node['mem'] -= slot['mem']\n                else:\n                    node['mem'] += slot['mem']\n", "            if slot['mem']: node['mem'] = op(node['mem'], slot['mem'])\n")]),
+    dict(name='sign looked up in a literal table keyed by the state', edits=[
+        (_B, "        # for node_name, node_index, cores, gpus in slots['ranks']:\n        for slot in slots:\n", "        sign = {rpc.BUSY: -1, rpc.FREE: 1}[new_state]\n\n        # for node_name, node_index, cores, gpus in slots['ranks']:\n        for slot in slots:\n"),
+        (_B, "            if slot['lfs']:\n                if new_state == rpc.BUSY:\n                    node['lfs'] -= slot['lfs']\n                else:\n                    node['lfs'] += slot['lfs']\n", "            if slot['lfs']: node['lfs'] += sign * slot['lfs']\n"),
+        (_B, "            if slot['mem']:\n                if new_state == rpc.BUSY:\n                    node['mem'] -= slot['mem']\n                else:\n                    node['mem'] += slot['mem']\n", "            if slot['mem']: node['mem'] += sign * slot['mem']\n")]),
+    dict(name='cancel: publication before the cancel_stop profile line', edits=[
+        (_P, "        self._prof.prof('task_run_cancel_stop', uid=tid)\n        self._prof.prof('unschedule_start', uid=tid)\n        self.publish(rpc.AGENT_UNSCHEDULE_PUBSUB, task)\n", "        self._prof.prof('unschedule_start', uid=tid)\n        self.publish(rpc.AGENT_UNSCHEDULE_PUBSUB, task)\n        self._prof.prof('task_run_cancel_stop', uid=tid)\n")]),
+    dict(name='cancel: membership test in positive form, removal by pop', edits=[
+        (_P, '            if tid not in self._tasks:\n                return\n            try:\n                del self._tasks[tid]\n            except KeyError:\n                pass\n\n        # task is still running -- cancel it', '            if tid in self._tasks:\n                self._tasks.pop(tid, None)\n            else:\n                return\n\n        # task is still running -- cancel it')]),
+    dict(name='watcher: finish list renamed', edits=[
+        (_P, '        tasks_to_advance = list()\n\n        # `to_watch.remove()`', '        finished = list()\n\n        # `to_watch.remove()`'),
+        (_P, '                tasks_to_advance.append(task)\n', '                finished.append(task)\n'),
+        (_P, '        self.publish(rpc.AGENT_UNSCHEDULE_PUBSUB, tasks_to_advance)\n\n        if tasks_to_advance:\n            self.advance(tasks_to_advance, rps.AGENT_STAGING_OUTPUT_PENDING,', '        self.publish(rpc.AGENT_UNSCHEDULE_PUBSUB, finished)\n\n        if finished:\n            self.advance(finished, rps.AGENT_STAGING_OUTPUT_PENDING,')]),
+    dict(name='watcher: bulk publication only when the list is not empty', edits=[
+        (_P, '        self.publish(rpc.AGENT_UNSCHEDULE_PUBSUB, tasks_to_advance)\n\n        if tasks_to_advance:\n', '        if tasks_to_advance:\n            self.publish(rpc.AGENT_UNSCHEDULE_PUBSUB, tasks_to_advance)\n')]),
+    dict(name='cancel: arbitration extracted into a helper', edits=[
+        (_P, '    def cancel_task(self, task):\n', '    def _disown_task(self, tid):\n        with self._check_lock:\n            if tid not in self._tasks:\n                return False\n            self._tasks.pop(tid, None)\n            return True\n\n    def cancel_task(self, task):\n'),
+        (_P, '        with self._check_lock:\n            if tid not in self._tasks:\n                return\n            try:\n                del self._tasks[tid]\n            except KeyError:\n                pass\n\n        # task is still running -- cancel it\n', '        if not self._disown_task(tid):\n            return\n\n        # task is still running -- cancel it\n')]),
 ]
